@@ -57,8 +57,60 @@ def run(chk):
             if f.cls is ci and name in ("Heff0", "Heff1", "Heff2"):
                 e7.check_conj_typing(chk, "T5", f, f.params[1:2])
 
+    run_T7(chk)
+
+
+def run_T7(chk):
+    """T7: the 12-site scheme enlarges a bond unless it already has the dimension `D_total`.  `enlarge_bond` reshapes the two site tensors into
+    matrices by `fuse_legs(axes=(<group>, <leg>))`; in the shape of such a matrix the bond is the position of the *single* leg of `axes`, the
+    other position is the product of the grouped legs.  The comparison with opts_svd['D_total'] reads the bond's position."""
+    import ast
+    from ..core import astutil as A
+    prog = chk.prog
+    chk.rule("T7", "enlarge_bond compares the dimension of the bond (the un-grouped leg of the reshaped site tensor) with D_total", floor=0)
+    ci = prog.cls("yastn.tn.mps._env", "EnvParent")
+    f = ci.methods["enlarge_bond"]
+    b = A.local_bindings(f.node)
+
+    def single_def(nm):
+        ds = [v for st, v, k in b.get(nm, []) if v is not None]
+        return ds[0] if len(ds) == 1 else None
+    n = 0
+    for c in ast.walk(f.node):
+        if not (isinstance(c, ast.Compare) and len(c.ops) == 1 and "D_total" in A.text(c)):
+            continue
+        for side in [c.left] + c.comparators:
+            if isinstance(side, ast.Subscript) and isinstance(side.value, ast.Name) and isinstance(side.slice, ast.Constant):
+                shp = single_def(side.value.id)
+                if not (isinstance(shp, ast.Call) and A.callee_attr(shp) == "get_shape" and isinstance(shp.func.value, ast.Name)):
+                    continue
+                mat = single_def(shp.func.value.id)
+                if not (isinstance(mat, ast.Call) and A.callee_attr(mat) == "fuse_legs"):
+                    continue
+                axes = A.kwarg(mat, "axes") or (mat.args[0] if mat.args else None)
+                if not isinstance(axes, ast.Tuple):
+                    continue
+                k = side.slice.value
+
+                def is_group(e):
+                    if isinstance(e, ast.Tuple):
+                        return True
+                    if isinstance(e, ast.Name):
+                        ds = [v for st, v, kk in b.get(e.id, []) if v is not None]
+                        return bool(ds) and all(isinstance(v, (ast.Tuple, ast.IfExp)) for v in ds)
+                    return False
+                n += 1
+                ok = 0 <= k < len(axes.elts) and not is_group(axes.elts[k])
+                chk.verdict("T7", (f, c), f"enlarge_bond: `{A.text(side)}` is the un-grouped leg of `{A.short(mat, 50)}`", True if ok else False,
+                            f"EnvParent.enlarge_bond(): `{A.text(c)}` compares position {k} of the shape of `{A.short(mat, 60)}` with D_total, but that position "
+                            f"is the group `{A.text(axes.elts[k]) if 0 <= k < len(axes.elts) else '?'}` (virtual x physical), not the bond: enlargement stops while the "
+                            f"bond is still below D_total (12-site TDVP stays in a too small manifold)")
+    if not n:
+        chk.note("T7: enlarge_bond does not compare an entry of get_shape() of a fuse_legs(axes=(..)) matrix with D_total (other spelling): not decided")
+
 
 MUTANTS = [
+    ('enlarge_bond compares the grouped dimension with D_total', 'yastn/tn/mps/_env.py', "shapeL[1] >= opts_svd['D_total']", "shapeL[0] >= opts_svd['D_total']", 'T7'),
     ('environment reset once per step', 'yastn/tn/mps/_tdvp.py', '        routine = lambda t, dt0, env: _tdvp_sweep_2site_(psi, Ht(t), dt0, u, et(env), opts_expmv, opts_svd, normalize, subtract_E, precompute)', '        routine = lambda t, dt0, env: _tdvp_sweep_2site_(psi, Ht(t), dt0, u, env, opts_expmv, opts_svd, normalize, subtract_E, precompute)', 'T3'),
     ('energy shift on the fixed start tensor', 'yastn/tn/mps/_tdvp.py', '        f = lambda x: env.Heff2(x, bd) - E0 * x', '        f = lambda x: env.Heff2(x, bd) - E0 * AA', 'T5'),
     ('composition constant as a wrong expression', 'yastn/tn/mps/_tdvp.py', '                s2 = 0.41449077179437573714', '                s2 = 1 / (4 - 4 ** 1 / 3)', 'T2'),
